@@ -301,6 +301,7 @@ static void runC14orC48(const char* prop) {
     long size = r.range(1, 400);
     if (r.chance(0.5)) size = static_cast<long>(s.gran) * r.range(1, 40) + (r.chance(0.7) ? r.range(1, std::max<long>(1, s.gran - 1)) : 0);
     s.start = r.range(-50, 50);
+    if (s.start < typeMin(s.type)) s.start = typeMin(s.type);
     s.end = s.start + size;
     if (s.chunking == 2) {
       s.chunk = std::max<long>(1, size / r.range(1, 20));
